@@ -20,6 +20,13 @@ import (
 	"github.com/containerd/nri/pkg/stub"
 )
 
+// shared with the process-wide hook; rounds run one after the other in a child
+var (
+	c08ZeroMoments atomic.Pointer[atomic.Int64]
+	c08ReqZ        atomic.Int64
+	c08MaxWait     atomic.Int64
+)
+
 type c08Plugin struct {
 	p          *rig.Plugin
 	pos        int
@@ -42,6 +49,10 @@ func runC08Round(dir string, g *rand.Rand, creators, nplugins, perCreator, faili
 	var mon sync.Mutex
 	held, inSync := 0, 0
 	var syncWhileHeld, blockWhileSync atomic.Int64
+	var zeroMoments atomic.Int64 // how often the number of held blocks dropped to zero
+	c08MaxWait.Store(0)
+	c08ZeroMoments.Store(&zeroMoments)
+	defer c08ZeroMoments.Store(nil)
 	var store sync.Mutex
 	var ctrs []*api.Container
 	pod := &api.PodSandbox{Id: "pod-" + tag, Name: "pod"}
@@ -131,6 +142,9 @@ func runC08Round(dir string, g *rand.Rand, creators, nplugins, perCreator, faili
 		_, err := rt.A.CreateContainer(context.Background(), &api.CreateContainerRequest{Pod: pod, Container: c})
 		mon.Lock()
 		held--
+		if held == 0 {
+			zeroMoments.Add(1)
+		}
 		mon.Unlock()
 		b.Unblock()
 		if doubleUnblock {
@@ -333,6 +347,15 @@ func runC08Round(dir string, g *rand.Rand, creators, nplugins, perCreator, faili
 		res.Seen(fmt.Sprintf("split|snap%d|events%d|big%v", bucket(nsnap), bucket(nev), big))
 		cp.mu.Unlock()
 	}
+	// bounded progress (needs the sync.request hook): once a registration asks for the exclusive section it gets
+	// its turn when the blocks held at that moment are released — the lock lets no new block in. Counted in
+	// "all blocks released" moments between asking and getting, not in time.
+	if w := c08MaxWait.Load(); w >= 0 {
+		res.Max("max_all_blocks_released_moments_while_a_registration_waited", w)
+		if w > 200 {
+			res.Violate("C08/registration-starved", fmt.Sprintf("a registration waited for the exclusive synchronization section while all sync blocks were released %d times", w), what)
+		}
+	}
 	res.Count("registrations", int64(len(plugins)))
 	res.Count("registrations_overlapping_creation", int64(overl))
 	res.Count("containers", int64(len(all)))
@@ -408,7 +431,15 @@ func c08EarlyBlock(dir string, res *ev.Result, tag string) {
 	mu.Lock()
 	store = append(store, ctr)
 	mu.Unlock()
-	_, err = rt.A.CreateContainer(context.Background(), &api.CreateContainerRequest{Pod: &api.PodSandbox{Id: "p"}, Container: ctr})
+	cdone := make(chan struct{})
+	go func() {
+		defer close(cdone)
+		_, err = rt.A.CreateContainer(context.Background(), &api.CreateContainerRequest{Pod: &api.PodSandbox{Id: "p"}, Container: ctr})
+	}()
+	if rig.Await(cdone, 5*time.Second, 30*time.Second) == "hang" {
+		res.Violate("C08/hang/creation-or-registration", "a creation under a sync block taken before Start did not return while a registration was pending; goroutines:\n"+nriStacks(), what)
+		return
+	}
 	mu.Lock()
 	held = false
 	mu.Unlock()
@@ -447,6 +478,17 @@ func runC08(c *ev.ChildEnv, res *ev.Result) {
 	hg := rand.New(rand.NewPCG(uint64(c.Seed), uint64(c.Batch)+801))
 	var hmu sync.Mutex
 	hooks := installAdaptationHook(func(point string) {
+		if zm := c08ZeroMoments.Load(); zm != nil {
+			switch point {
+			case "sync.request":
+				c08ReqZ.Store(zm.Load())
+				return // never delayed: the count below starts here
+			case "sync.exclusive":
+				if d := zm.Load() - c08ReqZ.Load(); d > c08MaxWait.Load() {
+					c08MaxWait.Store(d)
+				}
+			}
+		}
 		if !hookOn.Load() || !strings.HasPrefix(point, "sync.") {
 			return
 		}
